@@ -14,7 +14,7 @@ Numbers are an abstract type `ν` with the handful of operations the code applie
 
 Mirrors the code as it is NOW (after the repairs `306c4b1`, `16957a1`): 64-bit chunks are filtered
 by length, `</precursor>` and `</spectrum>` reset the precursor / isolation window / noise array.
-The `total ion current = 0` behaviour (blank spectrum) is modelled as coded.
+`total ion current = 0` is an ordinary value (the blank-spectrum special case was removed from the code).
 -/
 
 namespace Sage.C16
@@ -234,8 +234,8 @@ def cvSpectrum (cfg : Config) (s : PState ν) (c : Cv) (v : Val ν) : Except Err
     match v.float with
     | .error e => .error e
     | .ok x =>
-      if isZero x then .ok { s with spectrum := Spectrum.blank, state := none }
-      else .ok { s with spectrum := { s.spectrum with tic := x } }
+      -- (until the repair of C16-tic-zero, a value of 0 here blanked the spectrum and left the element)
+      .ok { s with spectrum := { s.spectrum with tic := x } }
   | _ => .ok s
 
 /-- cvParam inside `<precursor>` (isolation window, activation) -/
@@ -629,7 +629,7 @@ def ArrEl.wf (a : ArrEl ν) : Bool :=
 def PrecEl.wf (p : PrecEl ν) : Bool :=
   p.iso.all Param.okPrecursor && p.act.all Param.okPrecursor && p.ions.all (fun ps => ps.all Param.okIon)
 
-/-- well-formed, except that `total ion current = 0` is not excluded (see `noTicZero`) -/
+/-- well-formed (a `total ion current` of 0 is as good as any other value) -/
 def SpecEl.wf (e : SpecEl ν) : Bool :=
   e.params.all Param.okSpectrum &&
   (e.params.filter (fun p => p.c == .msLevel)).length ≤ 1 &&
@@ -642,8 +642,8 @@ def SpecEl.noTicZero (e : SpecEl ν) : Bool := e.params.all (fun p => !p.ticZero
 /-- the whole document, read element by element -/
 def denoteDoc (cfg : Config) (els : List (SpecEl ν)) : List (Spectrum ν) := els.filterMap (denote cfg)
 
-/-- what the code does for an element with `total ion current = 0` (the recorded defect): it emits a
-    blank spectrum when level 0 passes the filter, nothing otherwise -/
+/-- what the code DID for an element with `total ion current = 0` before the repair (kept so that the driver
+    can name a regression): a blank spectrum when level 0 passes the filter, nothing otherwise -/
 def ticZeroAsCoded (cfg : Config) : Option (Spectrum ν) :=
   match cfg.filter with
   | some f => if f == 0 then some Spectrum.blank else none
